@@ -9,7 +9,7 @@
    where decode follows CPython's rules.  Proved so far are the parts below; until the round trip is closed in
    Coq it is decided by the differential run plus the independent CPython-rules decoder (lib/pymarshal.py),
    and the property is reported as partial in MANIFEST.json. *)
-From AD Require Import Bytes Outcome Gen PycHeader PycHeaderProofs Marshal Pyc PycProofs.
+From AD Require Import Bytes Outcome Gen PycHeader PycHeaderProofs Marshal Pyc PycProofs PycRefs.
 
 (* the header is copied verbatim *)
 Theorem C02_header_unchanged_partial : forall x y hm ver hl,
@@ -25,6 +25,27 @@ Theorem C02_output_depends_on_tree_only_partial : forall x x' ver hl v rest r re
   parse ver (S (length (skipn hl x'))) 0 (skipn hl x') [] = Ok (v, rest', r') ->
   exists y hm hm', pyc_process x = Ok (y, hm) /\ pyc_process x' = Ok (y, hm').
 Proof. exact pyc_same_tree_same_bytes. Qed.
+
+(* no dangling, forward or "from within" reference: in the stream the writer produces for ANY object tree, every
+   reference token is preceded by the start of the very object it refers to ... *)
+Theorem C02_refs_point_back_partial : forall layout v pre k post,
+  toks_of layout v = pre ++ TRef k :: post -> exists c, In (TStart k c) pre.
+Proof. exact refs_point_back. Qed.
+
+(* ... that object carries the reference flag, and the index written after 'r' is its position in the table of
+   flagged objects written so far: the lookup the reader performs (nth_N, as in Marshal.parse) yields that object *)
+Theorem C02_refs_resolve_partial : forall layout v pre k post,
+  let toks := toks_of layout v in
+  let refd := refd_of toks in
+  toks = pre ++ TRef k :: post ->
+  let T := flagged pre refd in
+  index_in k T 0 < N.of_nat (length T) /\ nth_N T (index_in k T 0) = Some k /\
+  to_buffer layout v = render pre refd [] ++ pyc_code_ref :: le_encode 4 (index_in k T 0) ++ render post refd T.
+Proof. exact refs_resolve. Qed.
+
+(* the de-duplication key of the writer is structural equality *)
+Theorem C02_writer_equality : forall a b, veqb a b = true <-> a = b.
+Proof. intros a b. split; [apply veqb_true | intros ->; apply veqb_refl]. Qed.
 
 (* interpreters whose marshal format has no reference flag (Python < 3.4) never see a rewritten file *)
 Theorem C02_old_versions_untouched : forall x ver hl,
@@ -50,6 +71,9 @@ Proof. exact release_magics_classified. Qed.
 
 Print Assumptions C02_header_unchanged_partial.
 Print Assumptions C02_output_depends_on_tree_only_partial.
+Print Assumptions C02_refs_point_back_partial.
+Print Assumptions C02_refs_resolve_partial.
+Print Assumptions C02_writer_equality.
 Print Assumptions C02_old_versions_untouched.
 Print Assumptions C02_skip_bound.
 Print Assumptions C02_example.
